@@ -267,10 +267,19 @@ func recheckOutsideRegion(l *Loader, r *UnitResult, o *Obl, kf *KnownFinding, ou
 	o2.Assume = append(append([]*Term{}, o.Assume...), Not(region))
 	o2.Name = o.Name + "@outside"
 	o2.Status = ""
+	o2.Subs = nil
+	for _, s := range o.Subs {
+		s2 := *s
+		s2.Assume = append(append([]*Term{}, s.Assume...), Not(region))
+		s2.Name = s.Name + "@outside"
+		s2.Status = ""
+		o2.Subs = append(o2.Subs, &s2)
+	}
 	discharge([]*Obl{&o2}, outDir, secs, 1)
 	if o2.Status != "discharged" {
 		// continue with the restricted obligation: its model and replay lie outside the known region
 		o.Assume, o.Status, o.Model, o.Output, o.Solver = o2.Assume, o2.Status, o2.Model, o2.Output, o2.Solver
+		o.Reach, o.Goal, o.Subs = o2.Reach, o2.Goal, nil
 		return false, "obligation still fails outside the region (" + o2.Status + ")"
 	}
 	// the finding must still exist inside the region (otherwise the entry is stale; that is fine, but report it)
